@@ -802,7 +802,12 @@ func matrixDrive(args []string) error {
 					if r.Intn(2) == 0 && len(m) > 0 {
 						for k := range m {
 							if k[0] != k[1] {
-								m[[2]byte{k[1], k[0]}] = m[k] + 1
+								// the single remaining conflict: a whole unit, or the smallest difference float64 can hold
+								d := []float64{1, 1, math.Nextafter(m[k], math.Inf(1)) - m[k], 1e-12}[r.Intn(4)]
+								if m[k]+d == m[k] {
+									d = 1
+								}
+								m[[2]byte{k[1], k[0]}] = m[k] + d
 								break
 							}
 						}
